@@ -91,7 +91,7 @@ IsSuffixSeq(p, q) == Len(p) <= Len(q) /\ \A i \in 1..Len(p) : p[i] = q[Len(q) - 
 
 --------------------------------------------------------------------------
 (* Guards (_is_guard_satisfied, _is_state_in)                              *)
-(*   g == [op, name, kids, arg]; op \in none atom and or not stateIn       *)
+(*   g == [op, name, vk, kids, arg]; op \in none atom and or not stateIn   *)
 (*   gv : guard name -> "T" | "F" | "R" (raises)                           *)
 (*   result [v, log, err]                                                   *)
 
@@ -111,7 +111,9 @@ GEval(g, C, gv) ==
     [] OTHER ->
           IF g.name \notin D.guardImpl
           THEN GR(FALSE, <<>>, <<"ImplementationMissingError", "guard", g.name>>)
-          ELSE LET val == IF g.name \in DOMAIN gv THEN gv[g.name] ELSE "F"
+          \* g.vk is the key of the valuation: the guard name, or name:param for a
+          \* parameterised guard whose implementation looks at its params
+          ELSE LET val == IF g.vk \in DOMAIN gv THEN gv[g.vk] ELSE "F"
                    res == (val = "T")
                IN GR(res, <<L("guard", g.name, IF res THEN "T" ELSE "F", {})>>, NoErr)
 GAll(kids, i, C, gv) ==
@@ -337,6 +339,13 @@ Schedule(st, s, eng) ==
        IN IF eng = "pure" THEN st1 ELSE ArmAll(st1, s, D.tix[s].after, 1)
 CancelTasks(st, s) == Log(st, L("cancel", s, "", {}))
 
+RECURSIVE Rearm(_, _, _, _)
+Rearm(st, list, i, eng) ==
+  IF i > Len(list) THEN st
+  ELSE LET s == list[i]
+           st1 == Log(st, L("rearm", s, "", {}))
+       IN Rearm(IF eng = "pure" THEN st1 ELSE ArmAll(st1, s, D.tix[s].after, 1), list, i + 1, eng)
+
 --------------------------------------------------------------------------
 (* Completion (_check_and_fire_on_done, both copies agree)                 *)
 
@@ -505,10 +514,10 @@ ExecTransition(st, tid, ev, eng, proc) ==
                 ELSE st4
      IN IF Failed(st5) THEN
            \* rollback: configuration restored, tasks of exited states re-armed,
-           \* everything else (history, context, log, queue) stays
-           LET back == [st5 EXCEPT !.config = st.config]
-               rearm == SortBy(exits, [s \in exits |-> Rank(s)])
-           IN Log(back, L("rollback", t.src, "", exits))
+           \* everything else (history, context, log, queue) stays; the error
+           \* keeps propagating.  The code walks a set here; the harness sorts
+           \* the re-arm block by state id, the spec emits it in that order.
+           Rearm([st5 EXCEPT !.config = st.config], SortBy(exits, [s \in exits |-> Rank(s)]), 1, eng)
         ELSE IF eng = "async" THEN ObsSub(ObsTrans(st5, "external", t.name, st.config))
         ELSE ObsTrans(ObsSub(st5), "external", t.name, st.config)
 
